@@ -135,6 +135,18 @@ static void FN (queries) (REG_T *reg, const bm_t *m, vf_rng *rng, int nq)
                 }
             }
         }
+    /* points that are not representable in the region's coordinate type but alias a member when truncated to it (the entry point takes int):
+     * never members */
+    if (SUF == 16) {
+        for (int q = 0; q < 24; q++) {
+            int i = (int)(vf_next (rng) % WIN), j = (int)(vf_next (rng) % WIN); int64_t X = win_x + i, Y = win_y + j;
+            int kx = (int)(vf_next (rng) % 3) - 1, ky = (int)(vf_next (rng) % 3) - 1; if (!kx && !ky) kx = 1;
+            X += 65536LL * kx; Y += 65536LL * ky; ne++;
+            if (RP (contains_point) (reg, (int)X, (int)Y, NULL)) {
+                vf_violation ("C07:contains_point-beyond-16-bit", "contains_point(%lld,%lld) is TRUE for a 16-bit region: the point is outside the coordinate range (it aliases member (%lld,%lld) modulo 65536)", (long long)X, (long long)Y, (long long)(win_x + i), (long long)(win_y + j));
+                goto qdone; }
+        }
+    }
     /* contains_rectangle: boxes biased to the region's own edges */
     for (int q = 0; q < nq; q++) {
         int x1, y1, x2, y2;
